@@ -4,17 +4,20 @@ from vf.core import cZ, cbool, clist, cpair
 PID = "C14"
 MODULES = ["Prelude", "Sched", "C14_Model", "C14_Spec", "C14_Check"]
 PROPS_MODULE = "C14_Properties"
-THEOREMS = ["C14_pop_stable", "C14_strict", "C14_strict_sync", "C14_concurrent", "C14_unordered", "C14_wrap", "C14_spec_strict"]
+THEOREMS = ["C14_pop_stable", "C14_strict", "C14_strict_sync", "C14_concurrent", "C14_unordered", "C14_wrap", "C14_spec_strict", "C14_request_level_even"]
 EVAL = "C14_Check.eval"
-CLAUSES = ["agree", "only_ready", "strict", "unordered", "wrap", "conc_strict"]
+CLAUSES = ["agree", "only_ready", "strict", "unordered", "wrap", "conc_strict", "req_strict"]
 COQ_SHARD = 60
-RULE = ("rr cases: distinct (ready list, mode, upstream order, N) with at least 2 ready endpoints and N >= 2k picks; "
+RULE = ("request cases: distinct (subset, ready, request/limit op list) sent through the real dispatcher in which forwarded "
+        "requests reached at least two different endpoints; rr cases: distinct (ready list, mode, upstream order, N) with at least 2 ready endpoints and N >= 2k picks; "
         "history cases: distinct op lists in which the ready set changes between two picks that both see >= 2 ready "
         "endpoints; concurrent cases: distinct (k, picks, effective schedule) in which two goroutines' picks interleave")
 TRUSTED_BASE = [
     "Coq 8.16.1 kernel + vm_compute (case files); no native_compute, no extraction",
     "hand-written model C14_Model.v tied to /repo by the differential run of this check (real ClusterInfo, real "
     "MatchAttributes + Pop; the uint64 wrap is reached by storing a counter through an add-only export)",
+    "request-level cases go through the real proxy handler chain (filters + dispatcher.ServeHTTP) to k stub TLS upstreams that "
+    "record which endpoint received each forwarded request",
     "Pop is instrumented from the CURRENT clusterinfo.go by lib/vf/instrument.py (atomic.AddUint64 and every sync.Map operation "
     "on `loadbalancer` -> yield + the operation) and "
     "replayed under the cooperative scheduler harness/common/sched.go for the concurrent cases",
@@ -22,6 +25,9 @@ TRUSTED_BASE = [
     "except LoadOrStore of the cursor; fmt.Sprintf(\"%v\") of the ready list is injective on (identity, order) of endpoints",
 ]
 ASSUMPTIONS = [
+    "request level: a request refused by the policy's flow control (429) returns before Pop and does not consume a round-robin "
+    "turn (that is what dispatcher.ServeHTTP does; the property counts picks = forwarded requests); the refusal itself is an "
+    "input of the model (max-in-flight 0 schema), its correctness is property C05",
     "the ready set is stable during a window (the property's hypothesis): no server added or removed, no disabled flag or "
     "health changed — ClusterInfo.Sync calls that change none of these may occur anywhere in the window; histories with readiness / server changes are used "
     "only to validate the model (cursor per ready-list key, reset on server-set change)",
@@ -43,8 +49,31 @@ def rr(servers, ready, subset, all_, n, force=None, disabled=(), resync=0):
     return c
 
 
+def req_case(servers, ready, subset, reqs):
+    return {"kind": "req", "servers": servers, "ready": ready, "subset": subset, "reqs": reqs}
+
+
+REQ = {"op": "req"}
+HOLD = {"op": "req", "hold": True}
+
+
+def LIM(zero):
+    return {"op": "limit", "zero": zero}
+
+
 def corpus():
     cs = []
+    # the policy's TRAFFIC through the real dispatcher: k = 2..6 ready endpoints, sequential and overlapping
+    # requests, refused (429) requests in between (they must not consume a turn)
+    for k in (2, 3, 4, 5, 6):
+        srv = list(range(k))
+        cs.append(req_case(srv, srv, srv, [REQ] * (3 * k + 1)))
+        cs.append(req_case(srv, srv, list(reversed(srv)), [REQ, HOLD, REQ, HOLD] * k))
+        cs.append(req_case(srv, srv, srv, [REQ, REQ, LIM(True), REQ, LIM(False), REQ, REQ, LIM(True), REQ, REQ, REQ,
+                                           LIM(False)] + [REQ] * k))
+    cs.append(req_case([0, 1, 2, 3], [0, 1, 3], [3, 0, 1, 2], [REQ, HOLD, REQ, LIM(True), REQ, REQ, LIM(False), REQ, HOLD, REQ]))
+    cs.append(req_case([0, 1], [], [0, 1], [REQ, REQ]))
+    cs.append(req_case([0, 1, 2], [1], [0, 1, 2], [REQ, REQ, REQ]))
     for k in range(1, 8):
         srv = list(range(k))
         cs.append(rr(srv, srv, srv, False, 3 * k + 1))
@@ -167,6 +196,26 @@ def gen_hist(rng):
     return {"kind": "hist", "servers": servers, "ready": ready, "disabled": init_dis, "subset": subset, "ops": ops}
 
 
+def gen_req(rng):
+    k = rng.choice([2, 2, 3, 4, 4, 5, 6])
+    extra = rng.choice([0, 0, 1])
+    servers = list(range(k + extra))
+    ready = rng.sample(servers, k)
+    subset = rng.shuffle(servers) if rng.chance(2, 3) else rng.shuffle(ready)
+    reqs = []
+    zero = False
+    for _ in range(rng.randint(2 * k, 5 * k)):
+        r = rng.below(100)
+        if r < 12:
+            zero = not zero
+            reqs.append(LIM(zero))
+        elif r < 35:
+            reqs.append(HOLD)
+        else:
+            reqs.append(REQ)
+    return req_case(servers, ready, subset, reqs)
+
+
 def conc(subset, phases):
     return {"kind": "conc", "servers": sorted(subset), "ready": [], "subset": subset,
             "phases": [{"ready": r, "picks": p, "sched": s} for (r, p, s) in phases]}
@@ -209,6 +258,7 @@ def generate(rng, tier, scale=1):
     cs = [gen_rr(rng) for _ in range(nr * scale)]
     cs += [gen_hist(rng) for _ in range(nh * scale)]
     cs += [gen_conc(rng) for _ in range(nc * scale)]
+    cs += [gen_req(rng) for _ in range((50 if tier == "quick" else 500) * scale)]
     if tier == "thorough" and scale == 1:
         for k, picks in ((3, [2, 2]), (2, [1, 1, 1]), (4, [2, 1])):
             ng = len(picks)
@@ -226,6 +276,14 @@ def zl(l):
 
 def coq_case(case, obs):
     k = case["kind"]
+    if k == "req":
+        ready = [e for e in case["ready"] if e in case["servers"]]
+        ops = clist(["QReq" if o["op"] == "req" else "(QLimit %s)" % cbool(o["zero"]) for o in case["reqs"]])
+        if "panic" in obs:
+            out = [-1 if o["op"] == "req" else -2 for o in case["reqs"]] + [-1]   # never a silent pass
+        else:
+            out = obs["out"]
+        return "(CReq %s %s %s %s)" % (zl(ready), zl(case["subset"]), ops, zl(out))
     if k == "rr":
         ready = [e for e in case["ready"] if e in case["servers"] and e not in case.get("disabled", [])]
         ready = [e for i, e in enumerate(ready) if e not in ready[:i]]
@@ -282,6 +340,9 @@ def nontrivial_key(case, obs):
     if "panic" in obs:
         return None
     k = case["kind"]
+    if k == "req":
+        fwd = [x for x in obs["out"] if x >= 0]
+        return ("q", tuple(case["subset"]), tuple(case["ready"]), repr(case["reqs"])) if len(set(fwd)) >= 2 else None
     if k == "rr":
         picks = obs["picks"]
         if not picks:
@@ -303,6 +364,13 @@ def stats(case, obs):
     if "panic" in obs:
         return ["panic"]
     k = case["kind"]
+    if k == "req":
+        nr = len([e for e in case["subset"] if e in case["ready"] and e in case["servers"]])
+        labs = ["req:k=%d" % nr]
+        for o, x in zip(case["reqs"], obs["out"]):
+            labs.append("req:limit" if o["op"] == "limit" else "req:refused" if x == -3 else "req:503" if x == -1 else
+                        "req:forwarded-overlapping" if o.get("hold") else "req:forwarded")
+        return labs
     if k == "rr":
         picks = obs["picks"]
         nr = len([e for e in (picks[0]["order"] if picks else []) if e in case["ready"] and e in case["servers"]
@@ -330,7 +398,11 @@ def stats(case, obs):
 
 
 def shrink(case):
-    if case["kind"] == "rr" and case["n"] > 1:
+    if case["kind"] == "req":
+        q = case["reqs"]
+        for i in range(len(q)):
+            yield dict(case, reqs=q[:i] + q[i + 1:])
+    elif case["kind"] == "rr" and case["n"] > 1:
         yield dict(case, n=case["n"] // 2)
         yield dict(case, n=case["n"] - 1)
     elif case["kind"] == "hist":
